@@ -18,16 +18,27 @@ for f in ("patch.diff", "demo.py", "notes.md"):
         shutil.copy(os.path.join(src, f), os.path.join(sd, f))
 meta_p = os.path.join(sd, "meta.json")
 meta = json.load(open(meta_p)) if os.path.exists(meta_p) else {"property": prop, "runs": []}
-subprocess.run(["git", "-C", "/repo", "diff", "--quiet"], check=True)
+WT = os.environ.get("WT")  # run against the agent's worktree (patch already applied there) instead of patching /repo
+env = dict(os.environ)
+if WT:
+    env["VERIF_REPO"] = WT
+    d = subprocess.run(["git", "-C", WT, "diff"], capture_output=True, text=True).stdout
+    if d.strip() != open(os.path.join(sd, "patch.diff")).read().strip():
+        raise SystemExit(f"{WT} does not contain exactly patch.diff")
+else:
+    subprocess.run(["git", "-C", "/repo", "diff", "--quiet"], check=True)
 try:
-    subprocess.run(["git", "-C", "/repo", "apply", os.path.join(sd, "patch.diff")], check=True)
+    if not WT:
+        subprocess.run(["git", "-C", "/repo", "apply", os.path.join(sd, "patch.diff")], check=True)
     for c in checks:
-        r = subprocess.run(["bin/check", c, "--tier", os.environ.get("TIER", "quick")], cwd=V, capture_output=True, text=True)
+        r = subprocess.run(["bin/check", c, "--tier", os.environ.get("TIER", "quick")], cwd=V, capture_output=True, text=True, env=env)
         v = [l for l in r.stdout.split("\n") if l.startswith("VIOLATION")]
         print(f"{name} on {c}: exit {r.returncode}; {len(v)} VIOLATION lines; first: {(v[0][:300] if v else r.stdout.strip().split(chr(10))[-1][:200])}")
         meta["runs"].append({"check": c, "tier": os.environ.get("TIER", "quick"), "exit": r.returncode, "violations": len(v), "first": v[0][:400] if v else None})
 finally:
-    subprocess.run(["git", "-C", "/repo", "checkout", "--", "."], check=True)
+    if not WT:
+        subprocess.run(["git", "-C", "/repo", "checkout", "--", "."], check=True)
 json.dump(meta, open(meta_p, "w"), indent=1)
 # evidence files were rewritten by runs on a modified tree: restore the committed ones
-subprocess.run(["git", "-C", V, "checkout", "--", "evidence"], check=False)
+for c in checks:
+    subprocess.run(["git", "-C", V, "checkout", "--", f"evidence/{c}.json"], check=False)
